@@ -1,7 +1,7 @@
 """(re)write seeded/<id>/meta.json from the agent's description, my own verification record and the detection logs"""
 import json, os, glob, re
 VERIF = os.path.dirname(os.path.dirname(os.path.abspath(__file__)))
-for d in sorted(glob.glob(os.path.join(VERIF, 'seeded', 'C*-m*'))):
+for d in sorted(glob.glob(os.path.join(VERIF, 'seeded', 'C*-*m*'))):
     sid = os.path.basename(d)
     am = json.load(open(os.path.join(d, 'agent_meta.json'))) if os.path.exists(os.path.join(d, 'agent_meta.json')) else {}
     vf = json.load(open(os.path.join(d, 'verify.json'))) if os.path.exists(os.path.join(d, 'verify.json')) else {}
@@ -15,6 +15,13 @@ for d in sorted(glob.glob(os.path.join(VERIF, 'seeded', 'C*-m*'))):
         rc = re.findall(r'rc=(\d)', txt)
         det.append(dict(check=prop, tier=tier, exit=int(rc[-1]) if rc else None, violated_kernels=vio,
                         inconclusive=len(re.findall(r'^INCONCLUSIVE', txt, re.M))))
+    base = []
+    for lg in sorted(glob.glob(os.path.join(d, 'base_*.log'))):
+        m = re.match(r'base_(C\d\d)_(\w+)\.log', os.path.basename(lg))
+        txt = open(lg).read()
+        vio = sorted(set(re.findall(r'VIOLATION property=\S+ replay=\S*/([\w]+)-[0-9a-f]+\.json', txt)))
+        rc = re.findall(r'rc=(\d)', txt)
+        base.append(dict(check=m.group(1), tier=m.group(2), exit=int(rc[-1]) if rc else None, violated_kernels=vio))
     caught = [x for x in det if x['exit'] == 1]
     meta = dict(
         id=sid, property=am.get('property', sid[:3]), files=am.get('files'),
@@ -25,7 +32,9 @@ for d in sorted(glob.glob(os.path.join(VERIF, 'seeded', 'C*-m*'))):
                 'full test-suite (pytest -q -x, PYTHONPATH=<worktree>/Lib) with the patch applied; worktree removed',
             demo_exit_clean=vf.get('demo_clean_rc'), demo_exit_mutated=vf.get('demo_mutated_rc'),
             suite_with_patch='passed (no failures)' if vf.get('tests_passed_line') and not vf.get('tests_failed_line') else 'see tests_mutated.log'),
+        round=2 if '-r2' in sid else 1,
         checks_run=det,
+        baseline_before_round2_extensions=(dict(commit='c14225a', runs=base, detected=any(b['exit'] == 1 for b in base)) if base else None),
         detected=bool(caught),
         detected_by=sorted({'%s:%s' % (x['check'], k) for x in caught for k in x['violated_kernels']}))
     json.dump(meta, open(os.path.join(d, 'meta.json'), 'w'), indent=1)
